@@ -53,7 +53,8 @@ def make_chain(read_code, ids, start, check_content=True, lens=None):
             assume(len(vals[ids.index(start)]) > 0)      # the start id is a populated object (or 0), as the property states
         _set_identity(list(zip(ids, vals)))
         try:
-            expected = [(oid, v) for oid, v in zip(ids, vals) if oid >= start and oid in CATEGORY[read_code] and len(v) > 0]
+            expected = [(oid, v) for oid, v in sorted(zip(ids, vals), key=lambda p: p[0])
+                        if oid >= start and oid in CATEGORY[read_code] and len(v) > 0]
             seen = []
             oid = start
             done = False
@@ -169,6 +170,7 @@ def obligations(tier):
         (1, [0, 1, 2], 0), (1, [0, 1, 2], 1), (1, [0, 1, 2], 2),
         (2, [0, 2, 5], 0), (2, [1, 4, 6], 4),
         (3, [0, 0x80, 0xFF], 0), (3, [2, 0x80, 0x90], 0x80),
+        (3, [0x90, 0x85, 0x82], 0),          # private objects configured in non-ascending order
     ]
     if tier != "quick":
         cases += [(2, [0, 1, 2, 3], 0), (2, [3, 4, 5, 6], 3), (3, [0, 6, 0x80, 0xFF], 0), (3, [0x80, 0x81, 0xFE, 0xFF], 0x81),
